@@ -12,12 +12,21 @@ x {preemptable, not}. Choice points inside one run (ch.pick, 0 = benign): every 
 checkpoint {default, false, raise, then an external ending}, work_fn {return, raise, external
 ending, nested higher-priority preemptor}, validate_fn {true, false, raise, external ending};
 manual driver: external ending between any two steps, retry after a failed checkpoint, abort
-instead of complete. External endings: kill_operation, watchdog (virtual clock past
-max_operation_time, run_maintenance), shutdown.
+instead of complete. One-shot drivers (execute_operation / IntegratedCell.execute), whose
+acquisition loop and release loops contain no user callback: the resources are ProbeLock objects
+(a ResourceLock subclass registered through the public controller.register_resource), and every
+try_acquire / release the library issues for the operation - k-th acquisition incl. re-entrant
+repeats, preempting and blocked ones; every release on every exit path, incl. the releases made
+by an ending itself - is a choice point {default, external ending right before the lock step,
+external ending right after it (lock changed, controller bookkeeping not yet)}.
+External endings: kill_operation, watchdog (virtual clock past max_operation_time,
+run_maintenance), shutdown.
 
 Oracle (from the statement): whenever an ending call returns (kill/shutdown/maintenance
 inside a callback, and the driver call itself): no registered resource is owned by the
-operation, the operation is not in active_operations; at the end every resource the operation
+operation (only exemption: at the return of an ending issued from inside a lock step, the lock
+that step has just granted and the controller has not booked yet - it must be free when the
+driver call returns), the operation is not in active_operations; at the end every resource the operation
 never obtained has exactly its pre-call (owner, hold_count, owner_priority); work_fn ran at most
 once and at entry owned every requested resource; validation started only after work returned;
 success => work returned and validation (if any) returned truthy.
@@ -62,6 +71,22 @@ class Env:
     pass
 
 
+class ProbeLock(_types_mod.ResourceLock):
+    """A plain ResourceLock (registered through the public controller.register_resource) whose two
+    state-changing steps report to the harness: probe(kind, lock, owner, do) must call do() exactly
+    once and return its value. Without a probe it IS a ResourceLock."""
+
+    probe = None
+
+    def try_acquire(self, owner, priority=0):
+        do = lambda: _types_mod.ResourceLock.try_acquire(self, owner, priority)  # noqa: E731
+        return do() if self.probe is None else self.probe("acquire", self, owner, do)
+
+    def release(self, owner):
+        do = lambda: _types_mod.ResourceLock.release(self, owner)  # noqa: E731
+        return do() if self.probe is None else self.probe("release", self, owner, do)
+
+
 def lock_state(system):
     return {r: (l.owner, l.hold_count, l.owner_priority) for r, l in system.controller.resources.items()}
 
@@ -80,7 +105,7 @@ def add_holders(system, clock, hold, only=None):
     """register r1..r3 and start the holder operations (public manual API)"""
     for r in RES:
         kind, pre = hold[r]
-        system.register_resource(r, allow_preemption=bool(pre))
+        system.controller.register_resource(ProbeLock(resource_id=r, allow_preemption=bool(pre)))
     for r in RES:
         kind, pre = hold[r]
         if kind == "free" or (only is not None and r not in only):
@@ -134,7 +159,9 @@ def run_scenario(scn, ch):
     env.validate_runs = 0
     env.acq_snapshot = None
     env.manual_obtained = None
-    env.ended_before_acq = False
+    env.owned_ever = set()  # resources a lock step has granted to the operation so far
+    env.not_yet = None  # resources not yet granted when the FIRST external ending happened
+    env.lock_steps = {"acquire": 0, "release": 0}
     env.clock = clock = vclock.VClock()
     vclock.use(clock)
     mode = scn["mode"]
@@ -150,10 +177,10 @@ def run_scenario(scn, ch):
     def bad(key, what):
         env.viols.append((key, what))
 
-    def check_ended(where, text=None):
+    def check_ended(where, text=None, inflight=None):
         """an ending call has returned: nothing owned, not active"""
         text = text or where
-        owned = sorted(r for r, l in ctl.resources.items() if l.owner == OP)
+        owned = sorted(r for r, l in ctl.resources.items() if l.owner == OP and r != inflight)
         if owned:
             multi = any(req.count(r) > 1 for r in owned)
             bad(f"leak:{'reentrant-request' if multi else 'single-request'}:{where}",
@@ -162,9 +189,13 @@ def run_scenario(scn, ch):
         if OP in ctl.active_operations:
             bad(f"still-active:{where}", f"after {text} returned '{OP}' is still in active_operations")
 
-    def external(i, where):
+    def external(i, where, inflight=None):
         name = EXT[i]
         env.ext.append(name)
+        if env.not_yet is None:
+            # the statement lets a driver stop at the ending (these stay untouched) as well as carry
+            # on, obtain them and release them at the end
+            env.not_yet = set(RES) - env.owned_ever
         if name == "kill":
             system.kill_operation(OP, reason="manual")
         elif name == "watchdog":
@@ -172,7 +203,31 @@ def run_scenario(scn, ch):
             (cell or system).run_maintenance()
         else:
             (cell or system).shutdown()
-        check_ended(name, f"{name} (issued at {where})")
+        check_ended(name, f"{name} (issued at {where})", inflight)
+
+    def probe(kind, lock, owner, do):
+        """every lock step the library issues for the operation; in the one-shot modes a choice point"""
+        if env.done or owner != OP:
+            return do()
+        rid = lock.resource_id
+        k = env.lock_steps[kind]
+        env.lock_steps[kind] = k + 1
+        c = ch.pick(1 + 2 * len(EXT), f"{kind}:{k}:{rid}") if mode != "manual" else 0
+        if 1 <= c <= len(EXT):
+            external(c - 1, f"right before {kind} step #{k} on {rid}")
+        got = do()
+        fresh = kind == "acquire" and got in (LockResult.ACQUIRED, LockResult.PREEMPTED)
+        if kind == "acquire" and (fresh or got == LockResult.REENTRANT):
+            env.owned_ever.add(rid)
+        if c > len(EXT):
+            # the lock has changed, the controller has not booked it yet: a freshly granted lock is
+            # unknown to the ending and is judged when the driver call returns
+            external(c - 1 - len(EXT), f"inside {kind} step #{k} on {rid}, after the lock answered {got}",
+                     inflight=rid if fresh else None)
+        return got
+
+    for lock in ctl.resources.values():
+        lock.probe = probe
 
     def fix_created(ctx):
         if ctx.operation_id == OP and not getattr(ctx, "_c14_fixed", False):
@@ -195,8 +250,6 @@ def run_scenario(scn, ch):
                 raise Injected(f"checkpoint {phase}")
             else:
                 if c >= 3:
-                    if env.acq_snapshot is None:
-                        env.ended_before_acq = True  # ended before the first acquisition
                     external(c - 3, f"cp:{phase}")
                 r = orig(ctx)
             if phase == "G0" and env.acq_snapshot is None:
@@ -294,9 +347,9 @@ def run_scenario(scn, ch):
     for r in RES:
         if "shutdown" in env.ext:
             expected[r] = (None, 0, 0)  # every operation was ended
-        elif r in obtained and env.ended_before_acq and final[r] == env.pre_state[r]:
-            # ended before its first acquisition: the statement allows the driver to stop there
-            # (nothing obtained) as well as to carry on and release at the end
+        elif r in obtained and env.not_yet is not None and r in env.not_yet and final[r] == env.pre_state[r]:
+            # ended before it was granted this one: the statement allows the driver to stop there
+            # (never obtained) as well as to carry on and release at the end
             expected[r] = env.pre_state[r]
             obtained = obtained - {r}
         elif r in obtained:
